@@ -6,6 +6,7 @@
 BASE = ["Base/", "Run.v", "Extract.v"]
 PROPS = {
     "C19": {
+        "arch386": True,
         "coq_files": BASE + ["Label/", "Props/C19.v"],
         "spec_entries": [1],
         "rule": "exhaustive strings over the alphabet {0,1,2,3,63,64,0xC0,0xC1,0xFF,'a','.'} up to length 4 (quick) / 5 (thorough), "
@@ -17,6 +18,7 @@ PROPS = {
         "trusted_base": ["modelled, not verified: rfc1035label/label.go (tied by the correspondence on the explored inputs)"],
     },
     "C01": {
+        "arch386": True,
         "coq_files": BASE + ["V4/", "Props/C01.v"],
         "rule": "packets of the C01 domain: every option length in {0,1,2,253..257,508..512,763..767,1019..1022} x codes {1,53,81,82,83,254}, "
                 "chaddr lengths 0..16 (17,20,255,256 outside the domain for the model tie), names at 0/1/62/63 (64.. outside), IP forms nil/4/mapped "
@@ -27,6 +29,7 @@ PROPS = {
         "trusted_base": ["modelled, not verified: dhcpv4.(*DHCPv4).ToBytes, Options.Marshal, sortedKeys, FromBytes, fromBytesCheckEnd"],
     },
     "C04": {
+        "arch386": True,
         "coq_files": BASE + ["V4/", "Props/C04.v"],
         "model_is_spec": True,
         "rule": "exhaustive option areas over {0,1,2,3,53,82,255} up to length 5 (quick) / 6 (thorough) behind a valid header; every truncation "
@@ -37,6 +40,7 @@ PROPS = {
         "trusted_base": ["modelled, not verified: dhcpv4.FromBytes, Options.fromBytesCheckEnd"],
     },
     "C07": {
+        "arch386": True,
         "coq_files": BASE + ["V4/", "Props/C07.v"],
         "rule": "6-option sets including 82, 255 and 0 inserted in all 720 permutations (every 36th encoded 20 times in fresh maps, with "
                 "Update/Del detours), larger random sets in 4 shuffles; every encoding checked by a wire validator sharing no code with the library "
@@ -46,6 +50,7 @@ PROPS = {
         "trusted_base": ["modelled, not verified: dhcpv4.(*DHCPv4).ToBytes, Options.Marshal, sortedKeys"],
     },
     "C02": {
+        "arch386": True,
         "coq_files": BASE + ["Label/", "V4/", "V6/", "Gen/", "Tie/", "Props/C02.v"],
         "tie_lemmas": ["v6_dispatch_codes_match", "v6_all_table_entries_modelled", "v6_classify_matches_table", "v6_other_codes_generic", "v6_ntp_codes_match"],
         "rule": "messages and relay chains (depth 0..8 quick / 0..64 thorough) of 0..20 options drawn from the ParseOption table extracted from the "
@@ -58,6 +63,7 @@ PROPS = {
                          "tools/gen (Go AST extractor for the ParseOption table)"],
     },
     "C05": {
+        "arch386": True,
         "coq_files": BASE + ["Label/", "V4/", "V6/", "Gen/", "Tie/", "Props/C05.v"],
         "model_is_spec": True,
         "tie_lemmas": ["v6_dispatch_codes_match", "v6_other_codes_generic", "v6_relay_types_match", "v6_relay_header_match"],
@@ -69,6 +75,7 @@ PROPS = {
         "trusted_base": ["modelled, not verified: dhcpv6.FromBytes, MessageFromBytes, RelayMessageFromBytes, ParseOption, DUIDFromBytes"],
     },
     "C06": {
+        "arch386": True,
         "coq_files": BASE + ["Label/", "V4/", "V6/", "Props/C06.v"],
         "rule": "accepted byte strings, canonical or not: DHCPv4 mutated valid packets and non-canonical areas (unsorted, split, padded, repeated codes, names "
                 "without terminator, hlen > 16); DHCPv6 generated/mutated messages with nesting, every IA-prefix length 0..255, 4RD rules with all prefix-length/flag "
@@ -78,6 +85,7 @@ PROPS = {
         "trusted_base": ["modelled, not verified: the v4 and v6 codecs"],
     },
     "C17": {
+        "arch386": True,
         "coq_files": BASE + ["Label/", "V4/", "V6/Model.v", "V6/Total.v", "Props/C17.v"],
         "model_is_spec": True,
         "rule": "every typed accessor of *DHCPv4 (29 methods, 17 value kinds) x absent / present-nil / raw values of every length 0..64 with structured "
@@ -107,6 +115,7 @@ PROPS = {
         "trusted_base": ["modelled, not verified: dhcpv6 relay functions and message builders"],
     },
     "C18": {
+        "arch386": True,
         "coq_files": BASE + ["V4/Model.v", "V4/RoundTrip.v", "Raw/", "Gen/", "Tie/", "Props/C18.v"],
         "spec_entries": [61],
         "rule": "writes: every payload length 0..1500 x 1 (quick) / 4 (thorough) fills (all-zero, all-ones, alternating, random), boundary and random addresses/ports, each frame "
@@ -118,6 +127,7 @@ PROPS = {
         "trusted_base": ["modelled, not verified: nclient4 udp4pkt, checksum helpers, BroadcastRawUDPConn.ReadFrom/WriteTo; the scripted in-memory PacketConn"],
     },
     "C03": {
+        "arch386": True,
         "coq_files": BASE + ["Label/", "V4/", "V6/", "Raw/", "Props/C03.v"],
         "model_is_spec": True,
         "rule": "structure-aware mutation (byte set/flip, truncate, extend, duplicate/delete slice) of a generated corpus holding every option type of the ParseOption table "
